@@ -210,6 +210,11 @@ int flush_pubsub_msgs(void *data, const char *key, void *value) {
             evt_priv_t *msg = new_evt(mm->sub);
             if (msg && flushed) {
                 msg->evt.ps_evt = &mm->msg;
+                /* Same fields the receive loop fills in: timestamp and subscription's userdata */
+                fetch_ms(&msg->evt.ts, NULL);
+                if (mm->sub) {
+                    msg->evt.userdata = mm->sub->userptr;
+                }
                 m_queue_enqueue(flushed, msg);
                 continue;
             }
